@@ -24,6 +24,7 @@ Do(ev) ==
     [] ev.e = "UnpackU16le" -> UnpackU16le /\ ev.sv = res'[1] * 256 + res'[2]
     [] ev.e = "UnpackU32le" -> UnpackU32le
     [] ev.e = "Rewind" -> Rewind
+    [] ev.e = "Flip" -> Flip
     [] OTHER -> FALSE
 
 TraceInit == Init /\ size = 0 /\ ti = 1 /\ big = FALSE
@@ -36,8 +37,8 @@ TraceNext ==
      ELSE /\ Do(ev) /\ UNCHANGED big
           /\ ev.r = res'                 \* unpacked value / array contents
           /\ ev.p = p'                   \* rf_pack_consumed
-          /\ IF big THEN p' <= size       \* the window abstraction is only valid while everything requested lies inside it
-                    ELSE ev.rem = size - p'          \* rf_pack_remaining (negative after overflow)
+          /\ IF big THEN p' <= size'      \* the window abstraction is only valid while everything requested lies inside it
+                    ELSE ev.rem = size' - p'         \* rf_pack_remaining (negative after overflow)
           /\ ev.buf = buf'               \* buffer image
           /\ ev.g = 1                    \* guard bytes on both sides untouched
 TraceSpec == TraceInit /\ [][TraceNext]_tvars
